@@ -1,10 +1,1303 @@
-//! C12 — not built yet.
-use crate::{sx::Sx, Emitter};
+//! C12 — push rule evaluation: cases and implementation outcomes.
+//!
+//! case (see coq/C12/Run.v):
+//!   ( 0 ruleset event ctx aux )        Ruleset::get_match      -> Ok ( ) | Ok ( kind id n_actions )
+//!   ( 1 ruleset event ctx aux )        Ruleset::get_actions    -> Ok n_actions
+//!   ( 2 word pat val lpat lval fits )  PushCondition::EventMatch on content.body / content.x -> Ok b
+//!   ( 3 event ( path ... ) )           FlattenedJson::get per path, then contains_mentions
+//!   ( 4 cond event ctx aux )           PushCondition::applies  -> Ok b
+//! event: JSON value as serde_json reads the text handed to ruma ( 0 ) ( 1 b ) ( 2 i64 ) ( 3 s )
+//!   ( 4 v.. ) ( 5 (k v).. ) ( 6 literal ) = a number that is not an i64, ( 7 literal ) = a number
+//!   serde_json refuses (the implementation gets the text, the model this classification).
+//! aux = ( ( (s lowercase(s)) .. ) ( valid user ids .. ) ( lowercased patterns whose regex does not fit .. ) )
+use std::collections::BTreeMap;
 
-pub fn run(_tier: &str, _seed: u64, _em: &mut Emitter) {}
+use js_int::{Int, UInt};
+use ruma_common::{
+    power_levels::NotificationPowerLevels,
+    push::{
+        Action, AnyPushRuleRef, ComparisonOperator, ConditionalPushRule, ConditionalPushRuleInit, FlattenedJson,
+        FlattenedJsonValue, PatternedPushRule, PatternedPushRuleInit, PredefinedContentRuleId,
+        PredefinedOverrideRuleId, PushCondition, PushConditionPowerLevelsCtx, PushConditionRoomCtx, RoomMemberCountIs,
+        Ruleset, ScalarJsonValue, SimplePushRule, SimplePushRuleInit,
+    },
+    serde::Raw,
+    OwnedRoomId, OwnedUserId, RoomId, UserId,
+};
+use serde_json::Value as JsonValue;
 
-pub fn replay(_case: &Sx) -> Option<Sx> {
-    None
+use crate::{
+    rng::Rng,
+    sx::{guarded, Sx},
+    Emitter,
+};
+
+// ---------------------------------------------------------------------------------------------
+// JSON trees whose numbers are literals
+// ---------------------------------------------------------------------------------------------
+#[derive(Clone, Debug, PartialEq)]
+enum J {
+    Null,
+    Bool(bool),
+    Num(String),
+    Str(String),
+    Arr(Vec<J>),
+    Obj(BTreeMap<String, J>),
 }
 
-pub fn dump(_dir: &str) {}
+enum NumClass {
+    I64(i64),
+    Other,
+    Bad,
+}
+
+fn classify(lit: &str) -> NumClass {
+    match serde_json::from_str::<JsonValue>(lit) {
+        Err(_) => NumClass::Bad,
+        Ok(JsonValue::Number(n)) => match n.as_i64() {
+            Some(i) => NumClass::I64(i),
+            None => NumClass::Other,
+        },
+        Ok(_) => panic!("not a number literal: {lit}"),
+    }
+}
+
+impl J {
+    fn text(&self, out: &mut String) {
+        match self {
+            J::Null => out.push_str("null"),
+            J::Bool(b) => out.push_str(if *b { "true" } else { "false" }),
+            J::Num(l) => out.push_str(l),
+            J::Str(s) => out.push_str(&serde_json::to_string(s).unwrap()),
+            J::Arr(a) => {
+                out.push('[');
+                for (i, x) in a.iter().enumerate() {
+                    if i > 0 {
+                        out.push(',');
+                    }
+                    x.text(out);
+                }
+                out.push(']');
+            }
+            J::Obj(o) => {
+                out.push('{');
+                for (i, (k, x)) in o.iter().enumerate() {
+                    if i > 0 {
+                        out.push(',');
+                    }
+                    out.push_str(&serde_json::to_string(k).unwrap());
+                    out.push(':');
+                    x.text(out);
+                }
+                out.push('}');
+            }
+        }
+    }
+    fn to_text(&self) -> String {
+        let mut s = String::new();
+        self.text(&mut s);
+        s
+    }
+    fn sx(&self) -> Sx {
+        match self {
+            J::Null => Sx::L(vec![Sx::N(0)]),
+            J::Bool(b) => Sx::L(vec![Sx::N(1), Sx::b(*b)]),
+            J::Num(l) => match classify(l) {
+                NumClass::I64(i) => Sx::L(vec![Sx::N(2), Sx::N(i as i128)]),
+                NumClass::Other => Sx::L(vec![Sx::N(6), Sx::s(l)]),
+                NumClass::Bad => Sx::L(vec![Sx::N(7), Sx::s(l)]),
+            },
+            J::Str(s) => Sx::L(vec![Sx::N(3), Sx::s(s)]),
+            J::Arr(a) => {
+                let mut l = vec![Sx::N(4)];
+                l.extend(a.iter().map(J::sx));
+                Sx::L(l)
+            }
+            J::Obj(o) => {
+                let mut l = vec![Sx::N(5)];
+                for (k, v) in o {
+                    l.push(Sx::L(vec![Sx::s(k), v.sx()]));
+                }
+                Sx::L(l)
+            }
+        }
+    }
+    fn from_sx(x: &Sx) -> Option<J> {
+        let l = x.as_list()?;
+        match (l.first()?.as_int()?, &l[1..]) {
+            (0, []) => Some(J::Null),
+            (1, [b]) => Some(J::Bool(b.as_int()? != 0)),
+            (2, [n]) => Some(J::Num(n.as_int()?.to_string())),
+            (3, [s]) => Some(J::Str(s.as_string()?)),
+            (4, items) => items.iter().map(J::from_sx).collect::<Option<Vec<_>>>().map(J::Arr),
+            (5, items) => {
+                let mut o = BTreeMap::new();
+                for it in items {
+                    let kv = it.as_list()?;
+                    o.insert(kv.first()?.as_string()?, J::from_sx(kv.get(1)?)?);
+                }
+                Some(J::Obj(o))
+            }
+            (6, [s]) | (7, [s]) => Some(J::Num(s.as_string()?)),
+            _ => None,
+        }
+    }
+    fn strings(&self, out: &mut Vec<String>) {
+        match self {
+            J::Str(s) => out.push(s.clone()),
+            J::Arr(a) => a.iter().for_each(|x| x.strings(out)),
+            J::Obj(o) => o.values().for_each(|x| x.strings(out)),
+            _ => {}
+        }
+    }
+    fn raw(&self) -> Raw<JsonValue> {
+        serde_json::from_str::<Raw<JsonValue>>(&self.to_text()).expect("generated event text is valid JSON")
+    }
+}
+
+fn obj(items: Vec<(&str, J)>) -> J {
+    J::Obj(items.into_iter().map(|(k, v)| (k.to_owned(), v)).collect())
+}
+fn js(s: &str) -> J {
+    J::Str(s.to_owned())
+}
+
+// ---------------------------------------------------------------------------------------------
+// Descriptions of conditions, rules, contexts (what goes on the wire) and the real values
+// ---------------------------------------------------------------------------------------------
+#[derive(Clone, Debug)]
+enum Sc {
+    Null,
+    Bool(bool),
+    Int(i64),
+    Str(String),
+}
+
+#[derive(Clone, Debug)]
+enum Cd {
+    Match(String, String),
+    Dn,
+    Count(u8, u64),
+    Perm(String),
+    Is(String, Sc),
+    Contains(String, Sc),
+    Custom,
+}
+
+#[derive(Clone, Debug)]
+struct CR {
+    id: String,
+    en: bool,
+    conds: Vec<Cd>,
+    act: usize,
+}
+#[derive(Clone, Debug)]
+struct PR {
+    id: String,
+    en: bool,
+    pat: String,
+    act: usize,
+}
+#[derive(Clone, Debug)]
+struct SR {
+    id: String,
+    en: bool,
+    act: usize,
+}
+#[derive(Clone, Debug, Default)]
+struct RS {
+    o: Vec<CR>,
+    c: Vec<PR>,
+    r: Vec<SR>,
+    s: Vec<SR>,
+    u: Vec<CR>,
+}
+#[derive(Clone, Debug)]
+struct Cx {
+    room: String,
+    members: u64,
+    user: String,
+    dn: String,
+    pl: Option<(Vec<(String, i64)>, i64, i64)>,
+}
+
+impl Sc {
+    fn sx(&self) -> Sx {
+        match self {
+            Sc::Null => Sx::L(vec![Sx::N(0)]),
+            Sc::Bool(b) => Sx::L(vec![Sx::N(1), Sx::b(*b)]),
+            Sc::Int(i) => Sx::L(vec![Sx::N(2), Sx::N(*i as i128)]),
+            Sc::Str(s) => Sx::L(vec![Sx::N(3), Sx::s(s)]),
+        }
+    }
+    fn from_sx(x: &Sx) -> Option<Sc> {
+        let l = x.as_list()?;
+        match (l.first()?.as_int()?, &l[1..]) {
+            (0, []) => Some(Sc::Null),
+            (1, [b]) => Some(Sc::Bool(b.as_int()? != 0)),
+            (2, [n]) => Some(Sc::Int(i64::try_from(n.as_int()?).ok()?)),
+            (3, [s]) => Some(Sc::Str(s.as_string()?)),
+            _ => None,
+        }
+    }
+    fn real(&self) -> ScalarJsonValue {
+        match self {
+            Sc::Null => ScalarJsonValue::Null,
+            Sc::Bool(b) => ScalarJsonValue::Bool(*b),
+            Sc::Int(i) => ScalarJsonValue::Integer(Int::new(*i).expect("generated integers fit js_int::Int")),
+            Sc::Str(s) => ScalarJsonValue::String(s.clone()),
+        }
+    }
+    fn of_real(v: &ScalarJsonValue) -> Sc {
+        match v {
+            ScalarJsonValue::Null => Sc::Null,
+            ScalarJsonValue::Bool(b) => Sc::Bool(*b),
+            ScalarJsonValue::Integer(i) => Sc::Int(i64::from(*i)),
+            ScalarJsonValue::String(s) => Sc::Str(s.clone()),
+        }
+    }
+}
+
+fn op_real(op: u8) -> ComparisonOperator {
+    match op {
+        0 => ComparisonOperator::Eq,
+        1 => ComparisonOperator::Lt,
+        2 => ComparisonOperator::Gt,
+        3 => ComparisonOperator::Ge,
+        _ => ComparisonOperator::Le,
+    }
+}
+fn op_code(op: ComparisonOperator) -> u8 {
+    match op {
+        ComparisonOperator::Eq => 0,
+        ComparisonOperator::Lt => 1,
+        ComparisonOperator::Gt => 2,
+        ComparisonOperator::Ge => 3,
+        ComparisonOperator::Le => 4,
+    }
+}
+
+impl Cd {
+    fn sx(&self) -> Sx {
+        match self {
+            Cd::Match(k, p) => Sx::L(vec![Sx::N(0), Sx::s(k), Sx::s(p)]),
+            Cd::Dn => Sx::L(vec![Sx::N(1)]),
+            Cd::Count(op, n) => Sx::L(vec![Sx::N(2), Sx::N(*op as i128), Sx::N(*n as i128)]),
+            Cd::Perm(k) => Sx::L(vec![Sx::N(3), Sx::s(k)]),
+            Cd::Is(k, v) => Sx::L(vec![Sx::N(4), Sx::s(k), v.sx()]),
+            Cd::Contains(k, v) => Sx::L(vec![Sx::N(5), Sx::s(k), v.sx()]),
+            Cd::Custom => Sx::L(vec![Sx::N(6)]),
+        }
+    }
+    fn from_sx(x: &Sx) -> Option<Cd> {
+        let l = x.as_list()?;
+        match (l.first()?.as_int()?, &l[1..]) {
+            (0, [k, p]) => Some(Cd::Match(k.as_string()?, p.as_string()?)),
+            (1, []) => Some(Cd::Dn),
+            (2, [o, n]) => Some(Cd::Count(u8::try_from(o.as_int()?).ok()?, u64::try_from(n.as_int()?).ok()?)),
+            (3, [k]) => Some(Cd::Perm(k.as_string()?)),
+            (4, [k, v]) => Some(Cd::Is(k.as_string()?, Sc::from_sx(v)?)),
+            (5, [k, v]) => Some(Cd::Contains(k.as_string()?, Sc::from_sx(v)?)),
+            (6, []) => Some(Cd::Custom),
+            _ => None,
+        }
+    }
+    fn real(&self) -> PushCondition {
+        match self {
+            Cd::Match(k, p) => PushCondition::EventMatch { key: k.clone(), pattern: p.clone() },
+            Cd::Dn => PushCondition::ContainsDisplayName,
+            Cd::Count(op, n) => PushCondition::RoomMemberCount {
+                is: RoomMemberCountIs { prefix: op_real(*op), count: UInt::new(*n).expect("count fits UInt") },
+            },
+            Cd::Perm(k) => PushCondition::SenderNotificationPermission { key: k.clone() },
+            Cd::Is(k, v) => PushCondition::EventPropertyIs { key: k.clone(), value: v.real() },
+            Cd::Contains(k, v) => PushCondition::EventPropertyContains { key: k.clone(), value: v.real() },
+            Cd::Custom => serde_json::from_value(serde_json::json!({"kind": "org.example.custom", "x": 1}))
+                .expect("unknown condition kinds deserialize to _Custom"),
+        }
+    }
+    fn of_real(c: &PushCondition) -> Cd {
+        match c {
+            PushCondition::EventMatch { key, pattern } => Cd::Match(key.clone(), pattern.clone()),
+            PushCondition::ContainsDisplayName => Cd::Dn,
+            PushCondition::RoomMemberCount { is } => Cd::Count(op_code(is.prefix), u64::from(is.count)),
+            PushCondition::SenderNotificationPermission { key } => Cd::Perm(key.clone()),
+            PushCondition::EventPropertyIs { key, value } => Cd::Is(key.clone(), Sc::of_real(value)),
+            PushCondition::EventPropertyContains { key, value } => Cd::Contains(key.clone(), Sc::of_real(value)),
+            _ => Cd::Custom,
+        }
+    }
+    /// (pattern, word mode) pairs this condition may hand to `matches_pattern`.
+    fn patterns(&self, dn: &str, out: &mut Vec<(String, bool)>) {
+        match self {
+            Cd::Match(k, p) => out.push((p.clone(), k == "content.body")),
+            Cd::Dn => out.push((dn.to_owned(), true)),
+            _ => {}
+        }
+    }
+}
+
+fn actions(n: usize) -> Vec<Action> {
+    vec![Action::Notify; n]
+}
+
+impl CR {
+    fn sx(&self) -> Sx {
+        Sx::L(vec![
+            Sx::s(&self.id),
+            Sx::b(self.en),
+            Sx::L(self.conds.iter().map(Cd::sx).collect()),
+            Sx::N(self.act as i128),
+        ])
+    }
+    fn from_sx(x: &Sx) -> Option<CR> {
+        let l = x.as_list()?;
+        Some(CR {
+            id: l.first()?.as_string()?,
+            en: l.get(1)?.as_int()? != 0,
+            conds: l.get(2)?.as_list()?.iter().map(Cd::from_sx).collect::<Option<Vec<_>>>()?,
+            act: usize::try_from(l.get(3)?.as_int()?).ok()?,
+        })
+    }
+    fn real(&self) -> ConditionalPushRule {
+        ConditionalPushRuleInit {
+            actions: actions(self.act),
+            default: self.id.starts_with('.'),
+            enabled: self.en,
+            rule_id: self.id.clone(),
+            conditions: self.conds.iter().map(Cd::real).collect(),
+        }
+        .into()
+    }
+    fn of_real(r: &ConditionalPushRule) -> CR {
+        CR {
+            id: r.rule_id.clone(),
+            en: r.enabled,
+            conds: r.conditions.iter().map(Cd::of_real).collect(),
+            act: r.actions.len(),
+        }
+    }
+}
+impl PR {
+    fn sx(&self) -> Sx {
+        Sx::L(vec![Sx::s(&self.id), Sx::b(self.en), Sx::s(&self.pat), Sx::N(self.act as i128)])
+    }
+    fn from_sx(x: &Sx) -> Option<PR> {
+        let l = x.as_list()?;
+        Some(PR {
+            id: l.first()?.as_string()?,
+            en: l.get(1)?.as_int()? != 0,
+            pat: l.get(2)?.as_string()?,
+            act: usize::try_from(l.get(3)?.as_int()?).ok()?,
+        })
+    }
+    fn real(&self) -> PatternedPushRule {
+        PatternedPushRuleInit {
+            actions: actions(self.act),
+            default: self.id.starts_with('.'),
+            enabled: self.en,
+            rule_id: self.id.clone(),
+            pattern: self.pat.clone(),
+        }
+        .into()
+    }
+}
+impl SR {
+    fn sx(&self) -> Sx {
+        Sx::L(vec![Sx::s(&self.id), Sx::b(self.en), Sx::N(self.act as i128)])
+    }
+    fn from_sx(x: &Sx) -> Option<SR> {
+        let l = x.as_list()?;
+        Some(SR {
+            id: l.first()?.as_string()?,
+            en: l.get(1)?.as_int()? != 0,
+            act: usize::try_from(l.get(2)?.as_int()?).ok()?,
+        })
+    }
+}
+
+impl RS {
+    fn sx(&self) -> Sx {
+        Sx::L(vec![
+            Sx::L(self.o.iter().map(CR::sx).collect()),
+            Sx::L(self.c.iter().map(PR::sx).collect()),
+            Sx::L(self.r.iter().map(SR::sx).collect()),
+            Sx::L(self.s.iter().map(SR::sx).collect()),
+            Sx::L(self.u.iter().map(CR::sx).collect()),
+        ])
+    }
+    fn from_sx(x: &Sx) -> Option<RS> {
+        let l = x.as_list()?;
+        if l.len() != 5 {
+            return None;
+        }
+        Some(RS {
+            o: l[0].as_list()?.iter().map(CR::from_sx).collect::<Option<Vec<_>>>()?,
+            c: l[1].as_list()?.iter().map(PR::from_sx).collect::<Option<Vec<_>>>()?,
+            r: l[2].as_list()?.iter().map(SR::from_sx).collect::<Option<Vec<_>>>()?,
+            s: l[3].as_list()?.iter().map(SR::from_sx).collect::<Option<Vec<_>>>()?,
+            u: l[4].as_list()?.iter().map(CR::from_sx).collect::<Option<Vec<_>>>()?,
+        })
+    }
+    /// The real ruleset.  `None` if an id is not a valid room / user id or occurs twice in its kind
+    /// (the IndexSet would then not be the list on the wire).
+    fn real(&self) -> Option<Ruleset> {
+        let mut rs = Ruleset::new();
+        for r in &self.o {
+            if !rs.override_.insert(r.real()) {
+                return None;
+            }
+        }
+        for r in &self.c {
+            if !rs.content.insert(r.real()) {
+                return None;
+            }
+        }
+        for r in &self.r {
+            let rule_id: OwnedRoomId = RoomId::parse(&r.id).ok()?;
+            let rule: SimplePushRule<OwnedRoomId> =
+                SimplePushRuleInit { actions: actions(r.act), default: false, enabled: r.en, rule_id }.into();
+            if !rs.room.insert(rule) {
+                return None;
+            }
+        }
+        for r in &self.s {
+            let rule_id: OwnedUserId = UserId::parse(&r.id).ok()?;
+            let rule: SimplePushRule<OwnedUserId> =
+                SimplePushRuleInit { actions: actions(r.act), default: false, enabled: r.en, rule_id }.into();
+            if !rs.sender.insert(rule) {
+                return None;
+            }
+        }
+        for r in &self.u {
+            if !rs.underride.insert(r.real()) {
+                return None;
+            }
+        }
+        Some(rs)
+    }
+    fn of_real(rs: &Ruleset) -> RS {
+        RS {
+            o: rs.override_.iter().map(CR::of_real).collect(),
+            c: rs
+                .content
+                .iter()
+                .map(|r| PR { id: r.rule_id.clone(), en: r.enabled, pat: r.pattern.clone(), act: r.actions.len() })
+                .collect(),
+            r: rs
+                .room
+                .iter()
+                .map(|r| SR { id: r.rule_id.to_string(), en: r.enabled, act: r.actions.len() })
+                .collect(),
+            s: rs
+                .sender
+                .iter()
+                .map(|r| SR { id: r.rule_id.to_string(), en: r.enabled, act: r.actions.len() })
+                .collect(),
+            u: rs.underride.iter().map(CR::of_real).collect(),
+        }
+    }
+    fn patterns(&self, dn: &str) -> Vec<(String, bool)> {
+        let mut out = vec![];
+        for r in self.o.iter().chain(self.u.iter()) {
+            for c in &r.conds {
+                c.patterns(dn, &mut out);
+            }
+        }
+        for r in &self.c {
+            out.push((r.pat.clone(), true));
+        }
+        for r in self.r.iter().chain(self.s.iter()) {
+            out.push((r.id.clone(), false));
+        }
+        out
+    }
+}
+
+impl Cx {
+    fn sx(&self) -> Sx {
+        Sx::L(vec![
+            Sx::s(&self.room),
+            Sx::N(self.members as i128),
+            Sx::s(&self.user),
+            Sx::s(&self.dn),
+            Sx::opt(self.pl.as_ref().map(|(us, d, r)| {
+                Sx::L(vec![
+                    Sx::L(us.iter().map(|(u, l)| Sx::L(vec![Sx::s(u), Sx::N(*l as i128)])).collect()),
+                    Sx::N(*d as i128),
+                    Sx::N(*r as i128),
+                ])
+            })),
+        ])
+    }
+    fn from_sx(x: &Sx) -> Option<Cx> {
+        let l = x.as_list()?;
+        let pl = match l.get(4)?.as_opt()? {
+            None => None,
+            Some(p) => {
+                let p = p.as_list()?;
+                let mut us = vec![];
+                for u in p.first()?.as_list()? {
+                    let u = u.as_list()?;
+                    us.push((u.first()?.as_string()?, i64::try_from(u.get(1)?.as_int()?).ok()?));
+                }
+                Some((us, i64::try_from(p.get(1)?.as_int()?).ok()?, i64::try_from(p.get(2)?.as_int()?).ok()?))
+            }
+        };
+        Some(Cx {
+            room: l.first()?.as_string()?,
+            members: u64::try_from(l.get(1)?.as_int()?).ok()?,
+            user: l.get(2)?.as_string()?,
+            dn: l.get(3)?.as_string()?,
+            pl,
+        })
+    }
+    fn real(&self) -> Option<PushConditionRoomCtx> {
+        let power_levels = match &self.pl {
+            None => None,
+            Some((us, d, r)) => {
+                let mut users = BTreeMap::new();
+                for (u, l) in us {
+                    users.insert(UserId::parse(u).ok()?, Int::new(*l)?);
+                }
+                if users.len() != us.len() || !us.windows(2).all(|w| w[0].0 < w[1].0) {
+                    return None;
+                }
+                let mut notifications = NotificationPowerLevels::new();
+                notifications.room = Int::new(*r)?;
+                Some(PushConditionPowerLevelsCtx { users, users_default: Int::new(*d)?, notifications })
+            }
+        };
+        Some(PushConditionRoomCtx {
+            room_id: RoomId::parse(&self.room).ok()?,
+            member_count: UInt::new(self.members)?,
+            user_id: UserId::parse(&self.user).ok()?,
+            user_display_name: self.dn.clone(),
+            power_levels,
+        })
+    }
+}
+
+// ---------------------------------------------------------------------------------------------
+// aux: what Rust computes for the model's external functions
+// ---------------------------------------------------------------------------------------------
+/// Patterns with at most this many '?' are known to compile; `HUGE_QM` and above are known not to.
+const SMALL_QM: usize = 2_000;
+const HUGE_QM: usize = 50_000;
+
+fn regex_fits(lowered_pattern: &str) -> bool {
+    let n = lowered_pattern.bytes().filter(|b| *b == b'?').count();
+    if n <= SMALL_QM {
+        true
+    } else if n >= HUGE_QM {
+        false
+    } else {
+        panic!("pattern with {n} question marks: not classified")
+    }
+}
+
+fn aux(ev: &J, patterns: &[(String, bool)], extra: &[&str]) -> Sx {
+    let mut strings = vec![];
+    ev.strings(&mut strings);
+    strings.extend(patterns.iter().map(|(p, _)| p.clone()));
+    strings.extend(extra.iter().map(|s| (*s).to_owned()));
+    strings.sort();
+    strings.dedup();
+    let lower: Vec<Sx> = strings
+        .iter()
+        .filter_map(|s| {
+            let l = s.to_lowercase();
+            (l != *s).then(|| Sx::L(vec![Sx::s(s), Sx::s(&l)]))
+        })
+        .collect();
+    let mut valid = vec![];
+    if let J::Obj(o) = ev {
+        if let Some(J::Str(s)) = o.get("sender") {
+            if <&UserId>::try_from(s.as_str()).is_ok() {
+                valid.push(Sx::s(s));
+            }
+        }
+    }
+    let mut nofit: Vec<String> =
+        patterns.iter().filter(|(_, w)| *w).map(|(p, _)| p.to_lowercase()).filter(|p| !regex_fits(p)).collect();
+    nofit.sort();
+    nofit.dedup();
+    Sx::L(vec![Sx::L(lower), Sx::L(valid), Sx::L(nofit.iter().map(|p| Sx::s(p)).collect())])
+}
+
+// ---------------------------------------------------------------------------------------------
+// Running the implementation
+// ---------------------------------------------------------------------------------------------
+fn kind_code(r: &AnyPushRuleRef<'_>) -> i128 {
+    match r {
+        AnyPushRuleRef::Override(_) => 0,
+        AnyPushRuleRef::Content(_) => 1,
+        AnyPushRuleRef::Room(_) => 2,
+        AnyPushRuleRef::Sender(_) => 3,
+        AnyPushRuleRef::Underride(_) => 4,
+        _ => 9,
+    }
+}
+
+fn run_get_match(rs: &Ruleset, ev: &J, cx: &PushConditionRoomCtx) -> Sx {
+    let raw = ev.raw();
+    let (rs, cx) = (rs.clone(), cx.clone());
+    guarded(move || {
+        Sx::ok(match rs.get_match(&raw, &cx) {
+            None => Sx::L(vec![]),
+            Some(r) => Sx::L(vec![Sx::N(kind_code(&r)), Sx::s(r.rule_id()), Sx::N(r.actions().len() as i128)]),
+        })
+    })
+}
+
+fn run_get_actions(rs: &Ruleset, ev: &J, cx: &PushConditionRoomCtx) -> Sx {
+    let raw = ev.raw();
+    let (rs, cx) = (rs.clone(), cx.clone());
+    guarded(move || Sx::ok(Sx::N(rs.get_actions(&raw, &cx).len() as i128)))
+}
+
+fn run_cond(cd: &PushCondition, ev: &J, cx: &PushConditionRoomCtx) -> Sx {
+    let raw = ev.raw();
+    let (cd, cx) = (cd.clone(), cx.clone());
+    guarded(move || {
+        let f = FlattenedJson::from_raw(&raw);
+        Sx::ok(Sx::b(cd.applies(&f, &cx)))
+    })
+}
+
+fn scalar_sx(v: &ScalarJsonValue) -> Sx {
+    Sc::of_real(v).sx()
+}
+
+fn fval_sx(v: Option<&FlattenedJsonValue>) -> Sx {
+    match v {
+        None => Sx::L(vec![]),
+        Some(FlattenedJsonValue::Null) => Sx::L(vec![Sc::Null.sx()]),
+        Some(FlattenedJsonValue::Bool(b)) => Sx::L(vec![Sc::Bool(*b).sx()]),
+        Some(FlattenedJsonValue::Integer(i)) => Sx::L(vec![Sc::Int(i64::from(*i)).sx()]),
+        Some(FlattenedJsonValue::String(s)) => Sx::L(vec![Sc::Str(s.clone()).sx()]),
+        Some(FlattenedJsonValue::Array(a)) => {
+            let mut l = vec![Sx::N(4)];
+            l.extend(a.iter().map(scalar_sx));
+            Sx::L(vec![Sx::L(l)])
+        }
+        Some(FlattenedJsonValue::EmptyObject) => Sx::L(vec![Sx::L(vec![Sx::N(5)])]),
+    }
+}
+
+fn run_flatten(ev: &J, paths: &[String]) -> Sx {
+    let raw = ev.raw();
+    let paths = paths.to_vec();
+    guarded(move || {
+        let f = FlattenedJson::from_raw(&raw);
+        let mut l: Vec<Sx> = paths.iter().map(|p| fval_sx(f.get(p))).collect();
+        l.push(Sx::b(f.contains_mentions()));
+        Sx::ok(Sx::L(l))
+    })
+}
+
+thread_local! {
+    static MATCH_CTX: PushConditionRoomCtx = Cx {
+        room: "!r:x.y".into(), members: 2, user: "@me:x.y".into(), dn: "me".into(), pl: None,
+    }.real().unwrap();
+}
+
+/// `pattern` against `value` through the public API: an `event_match` condition on `content.body`
+/// (word matching) or on `content.x` (whole-value matching).
+fn run_match(word: bool, pat: &str, val: &str) -> Sx {
+    let field = if word { "body" } else { "x" };
+    let ev = obj(vec![("content", obj(vec![(field, js(val))]))]);
+    let raw = ev.raw();
+    let cd = PushCondition::EventMatch { key: format!("content.{field}"), pattern: pat.to_owned() };
+    guarded(move || {
+        let f = FlattenedJson::from_raw(&raw);
+        MATCH_CTX.with(|cx| Sx::ok(Sx::b(cd.applies(&f, cx))))
+    })
+}
+
+fn match_case(word: bool, pat: &str, val: &str) -> Sx {
+    let lp = pat.to_lowercase();
+    let fits = !word || regex_fits(&lp);
+    Sx::L(vec![Sx::N(2), Sx::b(word), Sx::s(pat), Sx::s(val), Sx::s(&lp), Sx::s(&val.to_lowercase()), Sx::b(fits)])
+}
+
+fn emit_match(em: &mut Emitter, tag: &str, word: bool, pat: &str, val: &str) {
+    em.emit(tag, match_case(word, pat, val), run_match(word, pat, val));
+}
+
+fn rules_case(op: i128, rs: &RS, ev: &J, cx: &Cx) -> Sx {
+    let pats = rs.patterns(&cx.dn);
+    Sx::L(vec![Sx::N(op), rs.sx(), ev.sx(), cx.sx(), aux(ev, &pats, &[&cx.room, &cx.dn])])
+}
+
+fn emit_rules(em: &mut Emitter, tag: &str, rs: &RS, ev: &J, cx: &Cx) {
+    let (Some(real), Some(rcx)) = (rs.real(), cx.real()) else {
+        panic!("generator produced an invalid ruleset or context: {rs:?} {cx:?}");
+    };
+    em.emit(tag, rules_case(0, rs, ev, cx), run_get_match(&real, ev, &rcx));
+    em.emit(tag, rules_case(1, rs, ev, cx), run_get_actions(&real, ev, &rcx));
+}
+
+fn cond_case(cd: &Cd, ev: &J, cx: &Cx) -> Sx {
+    let mut pats = vec![];
+    cd.patterns(&cx.dn, &mut pats);
+    Sx::L(vec![Sx::N(4), cd.sx(), ev.sx(), cx.sx(), aux(ev, &pats, &[&cx.room, &cx.dn])])
+}
+
+fn emit_cond(em: &mut Emitter, tag: &str, cd: &Cd, ev: &J, cx: &Cx) {
+    let rcx = cx.real().expect("generated context is valid");
+    em.emit(tag, cond_case(cd, ev, cx), run_cond(&cd.real(), ev, &rcx));
+}
+
+fn emit_flatten(em: &mut Emitter, tag: &str, ev: &J, paths: &[String]) {
+    let case = Sx::L(vec![Sx::N(3), ev.sx(), Sx::L(paths.iter().map(|p| Sx::s(p)).collect())]);
+    em.emit(tag, case, run_flatten(ev, paths));
+}
+
+pub fn replay(case: &Sx) -> Option<Sx> {
+    let l = case.as_list()?;
+    match l.first()?.as_int()? {
+        op @ (0 | 1) => {
+            let rs = RS::from_sx(l.get(1)?)?.real()?;
+            let ev = J::from_sx(l.get(2)?)?;
+            let cx = Cx::from_sx(l.get(3)?)?.real()?;
+            Some(if op == 0 { run_get_match(&rs, &ev, &cx) } else { run_get_actions(&rs, &ev, &cx) })
+        }
+        2 => Some(run_match(l.get(1)?.as_int()? != 0, &l.get(2)?.as_string()?, &l.get(3)?.as_string()?)),
+        3 => {
+            let ev = J::from_sx(l.get(1)?)?;
+            let paths = l.get(2)?.as_list()?.iter().map(Sx::as_string).collect::<Option<Vec<_>>>()?;
+            Some(run_flatten(&ev, &paths))
+        }
+        4 => {
+            let cd = Cd::from_sx(l.get(1)?)?;
+            let ev = J::from_sx(l.get(2)?)?;
+            let cx = Cx::from_sx(l.get(3)?)?.real()?;
+            Some(run_cond(&cd.real(), &ev, &cx))
+        }
+        _ => None,
+    }
+}
+
+#[allow(deprecated)]
+pub fn dump(dir: &str) {
+    let s = format!(
+        "roomnotif = {}\ncontains_display_name = {}\ncontains_user_name = {}\n",
+        PredefinedOverrideRuleId::RoomNotif.as_ref(),
+        PredefinedOverrideRuleId::ContainsDisplayName.as_ref(),
+        PredefinedContentRuleId::ContainsUserName.as_ref(),
+    );
+    std::fs::write(format!("{dir}/push_legacy_ids.txt"), s).unwrap();
+}
+
+// ---------------------------------------------------------------------------------------------
+// Generators
+// ---------------------------------------------------------------------------------------------
+/// All strings over `alphabet` of length <= `max`, shortest first.
+fn all_strings(alphabet: &[char], max: usize) -> Vec<String> {
+    let mut out = vec![String::new()];
+    let mut level = vec![String::new()];
+    for _ in 0..max {
+        let mut next = Vec::with_capacity(level.len() * alphabet.len());
+        for s in &level {
+            for c in alphabet {
+                let mut t = s.clone();
+                t.push(*c);
+                next.push(t);
+            }
+        }
+        out.extend(next.iter().cloned());
+        level = next;
+    }
+    out
+}
+
+const PAT_ALPHA: &[char] = &['a', 'b', '_', ' ', '-', '*', '?', '\n', '\u{e9}'];
+const TXT_ALPHA: &[char] = &['a', 'b', '_', ' ', '-', '\n', '\u{e9}'];
+
+fn systematic_matches(tier: &str, em: &mut Emitter) {
+    let thorough = tier == "thorough";
+    // word-boundary matching
+    let pats = all_strings(PAT_ALPHA, if thorough { 3 } else { 2 });
+    let txts = all_strings(TXT_ALPHA, if thorough { 4 } else { 3 });
+    for p in &pats {
+        for t in &txts {
+            emit_match(em, "systematic-word", true, p, t);
+        }
+    }
+    // whole-value matching
+    let txts_w = all_strings(TXT_ALPHA, 3);
+    for p in &pats {
+        for t in &txts_w {
+            emit_match(em, "systematic-whole", false, p, t);
+        }
+    }
+    // longer patterns over a smaller alphabet; texts may hold the wildcard characters themselves
+    let pats4 = all_strings(&['a', ' ', '*', '?'], if thorough { 4 } else { 3 });
+    let txts4 = all_strings(&['a', ' ', '\n', '\u{e9}', '?', '*'], if thorough { 4 } else { 3 });
+    for p in pats4.iter().filter(|p| p.chars().count() >= 3) {
+        for t in &txts4 {
+            emit_match(em, "systematic-word-long", true, p, t);
+            if thorough || t.len() <= 3 {
+                emit_match(em, "systematic-whole-long", false, p, t);
+            }
+        }
+    }
+}
+
+const RND_CHARS: &[char] = &[
+    'a', 'b', 'c', 'A', 'B', '_', '0', '9', ' ', ' ', '-', '.', '!', '@', '\n', '\t', '\u{e9}', '\u{c9}', '\u{130}', '\u{3a3}',
+    '\u{df}', '\u{1F600}', '\u{26a1}', '\u{fe0f}', '\\', '[', ']', '(', ')', '+', '^', '$', '|', '{', '}', '#', '&', '~',
+];
+
+fn rnd_string(r: &mut Rng, max: usize, wild: bool) -> String {
+    let n = r.below(max + 1);
+    (0..n)
+        .map(|_| {
+            if wild && r.chance(1, 4) {
+                *r.pick(&['*', '?'])
+            } else if r.chance(1, 2) {
+                *r.pick(&['a', 'b', ' ', '_'])
+            } else {
+                *r.pick(RND_CHARS)
+            }
+        })
+        .collect()
+}
+
+/// A text made from the pattern: wildcards instantiated, optionally embedded in a context.
+fn instance_of(r: &mut Rng, pat: &str) -> String {
+    let mut s = String::new();
+    s.push_str(*r.pick(&["", "", " ", "a", "\u{e9}", "\n", "-", "a ", "b_", "x\u{e9} "]));
+    for c in pat.chars() {
+        match c {
+            '*' => s.push_str(&rnd_string(r, 3, false)),
+            '?' => s.push(*r.pick(RND_CHARS)),
+            c => {
+                // sometimes change the case, rarely the character
+                if r.chance(1, 6) {
+                    s.extend(c.to_uppercase());
+                } else if r.chance(1, 40) {
+                    s.push('z');
+                } else {
+                    s.push(c);
+                }
+            }
+        }
+    }
+    s.push_str(*r.pick(&["", "", " ", "a", "\u{e9}", "\n", "-", " a", "_b", " \u{e9}x"]));
+    s
+}
+
+fn random_matches(tier: &str, r: &mut Rng, em: &mut Emitter) {
+    let n = if tier == "thorough" { 150_000 } else { 6_000 };
+    for _ in 0..n {
+        let pat = rnd_string(r, 10, true);
+        let val = match r.below(4) {
+            0 => rnd_string(r, 20, true),
+            1 => {
+                // two partial occurrences then a full one: exercises the restart of the scanner
+                let a = instance_of(r, &pat);
+                let b = instance_of(r, &pat);
+                format!("{a}{}{b}", r.pick(&["", " ", "x", "-", "\n"]))
+            }
+            _ => instance_of(r, &pat),
+        };
+        let word = r.chance(2, 3);
+        emit_match(em, "random-match", word, &pat, &val);
+    }
+}
+
+const KEYS: &[&str] = &[
+    "", "a", "b", ".", "\\", "a.b", "a\\b", "a\\.b", "content", "body", "m.mentions", "sender", "room_id", "x.", ".x", "\u{e9}",
+    "type", "user_ids", "room", "\\\\", "..",
+];
+const STRS: &[&str] = &[
+    "", "a", "b", "a b", "@me:x.y", "@other:x.y", "@room", "Me", "hello me!", "m.text", "m.room.message", "!r:x.y", "\u{c9}A",
+    "x\ny", "true", "1",
+];
+const NUMS: &[&str] = &[
+    "0", "1", "-1", "50", "100", "9007199254740991", "9007199254740992", "-9007199254740991", "-9007199254740992",
+    "9223372036854775807", "9223372036854775808", "-9223372036854775808", "18446744073709551615", "18446744073709551616", "1.5",
+    "1.0", "1e2", "-0", "0.0", "1E-400",
+];
+const BAD_NUMS: &[&str] = &["1e999", "-1e999", "1E400", "123456789e999"];
+
+fn gen_value(r: &mut Rng, depth: usize) -> J {
+    let k = if depth == 0 { r.below(5) } else { r.below(8) };
+    match k {
+        0 => J::Null,
+        1 => J::Bool(r.chance(1, 2)),
+        2 => J::Num(if r.chance(2, 3) { (*r.pick(NUMS)).to_owned() } else { (r.below(200) as i64 - 100).to_string() }),
+        3 | 4 => J::Str((*r.pick(STRS)).to_owned()),
+        5 => J::Arr((0..r.below(4)).map(|_| gen_value(r, depth - 1)).collect()),
+        _ => gen_object(r, depth - 1),
+    }
+}
+
+fn gen_object(r: &mut Rng, depth: usize) -> J {
+    let n = r.below(4);
+    let mut o = BTreeMap::new();
+    for _ in 0..n {
+        o.insert((*r.pick(KEYS)).to_owned(), gen_value(r, depth));
+    }
+    J::Obj(o)
+}
+
+fn escape_seg(k: &str) -> String {
+    k.replace('\\', "\\\\").replace('.', "\\.")
+}
+
+/// Paths to probe: every node's escaped path, the same joined without escaping, and variations.
+fn probe_paths(r: &mut Rng, ev: &J) -> Vec<String> {
+    fn walk(v: &J, esc: &mut Vec<String>, raw: &mut Vec<String>, out: &mut Vec<String>) {
+        if !esc.is_empty() {
+            out.push(esc.join("."));
+            out.push(raw.join("."));
+        }
+        if let J::Obj(o) = v {
+            for (k, x) in o {
+                esc.push(escape_seg(k));
+                raw.push(k.clone());
+                walk(x, esc, raw, out);
+                esc.pop();
+                raw.pop();
+            }
+        }
+    }
+    let mut out = vec![String::new(), ".".to_owned(), "content.m\\.mentions".to_owned(), "a\\".to_owned(), "\\a".to_owned()];
+    walk(ev, &mut vec![], &mut vec![], &mut out);
+    let n = out.len();
+    for _ in 0..4 {
+        let mut p = out[r.below(n)].clone();
+        match r.below(4) {
+            0 => p.push('.'),
+            1 => p.insert(0, '.'),
+            2 => p.push_str(".a"),
+            _ => p = p.replace("\\.", "."),
+        }
+        out.push(p);
+    }
+    out.sort();
+    out.dedup();
+    out
+}
+
+fn flatten_stream(tier: &str, r: &mut Rng, em: &mut Emitter) {
+    // fixed shapes first
+    let fixed: Vec<J> = vec![
+        J::Obj(BTreeMap::new()),
+        obj(vec![("", obj(vec![("b", js("one"))])), ("b", js("two"))]),
+        obj(vec![("", obj(vec![("", js("x"))]))]),
+        obj(vec![("a", obj(vec![("", js("x"))]))]),
+        obj(vec![("a.b", js("dot")), ("a", obj(vec![("b", js("nested"))])), ("a\\", obj(vec![("b", js("bs"))]))]),
+        obj(vec![("content", obj(vec![("m.mentions", obj(vec![]))]))]),
+        obj(vec![("content", obj(vec![("m.mentions", obj(vec![("user_ids", J::Arr(vec![js("@me:x.y")]))]))]))]),
+        obj(vec![("content", obj(vec![("m.mentionsx", J::Bool(true)), ("m", obj(vec![("mentions", J::Bool(true))]))]))]),
+        obj(vec![("content.m", obj(vec![("mentions", J::Bool(true))]))]),
+        obj(vec![("n", J::Arr(vec![J::Num("1".into()), J::Num("1.5".into()), js("s"), J::Arr(vec![]), obj(vec![]), J::Null]))]),
+    ];
+    for ev in &fixed {
+        let paths = probe_paths(r, ev);
+        emit_flatten(em, "flatten-fixed", ev, &paths);
+    }
+    let n = if tier == "thorough" { 60_000 } else { 3_000 };
+    for _ in 0..n {
+        let mut ev = gen_object(r, 3);
+        if r.chance(1, 4) {
+            if let J::Obj(o) = &mut ev {
+                let mut c = BTreeMap::new();
+                c.insert("body".to_owned(), js("hi"));
+                if r.chance(1, 2) {
+                    c.insert("m.mentions".to_owned(), gen_value(r, 2));
+                }
+                o.insert("content".to_owned(), J::Obj(c));
+            }
+        }
+        let paths = probe_paths(r, &ev);
+        emit_flatten(em, "flatten-random", &ev, &paths);
+    }
+}
+
+const USERS: &[&str] = &["@me:x.y", "@other:x.y", "@Admin:x.y", "@bot:z.w"];
+const ROOMS: &[&str] = &["!r:x.y", "!R:x.y", "!other:x.y", "!a*:x.y"];
+const BODIES: &[&str] = &[
+    "hello", "hello me", "Hello Me!", "@room look", "me", "meme", "me-too", "some\u{e9}me", "a\nme\nb", "@other:x.y: ping", "other",
+    "", "x", "MY NAME", "my name", "my  name", "surname",
+];
+
+fn gen_ctx(r: &mut Rng) -> Cx {
+    let pl = if r.chance(4, 5) {
+        let mut us: Vec<(String, i64)> = vec![];
+        for u in USERS {
+            if r.chance(1, 3) {
+                us.push(((*u).to_owned(), *r.pick(&[0i64, 25, 50, 51, 100, -1])));
+            }
+        }
+        us.sort();
+        Some((us, *r.pick(&[0i64, 0, 50, 100]), *r.pick(&[50i64, 50, 0, 51, 100])))
+    } else {
+        None
+    };
+    Cx {
+        room: (*r.pick(ROOMS)).to_owned(),
+        members: *r.pick(&[0u64, 1, 2, 2, 3, 10, 9007199254740991]),
+        user: "@me:x.y".to_owned(),
+        dn: (*r.pick(&["me", "Me", "My Name", "", "m?", "*", "\u{c9}ve", "na me"])).to_owned(),
+        pl,
+    }
+}
+
+fn gen_event(r: &mut Rng) -> J {
+    if r.chance(1, 8) {
+        return gen_object(r, 3);
+    }
+    let mut content = BTreeMap::new();
+    let ty = *r.pick(&[
+        "m.room.message", "m.room.message", "m.room.message", "m.room.member", "m.reaction", "m.room.tombstone",
+        "m.room.encrypted", "m.call.invite", "m.room.server_acl", "org.example",
+    ]);
+    if r.chance(5, 6) {
+        content.insert("body".to_owned(), js(*r.pick(BODIES)));
+    }
+    if r.chance(1, 2) {
+        content.insert("msgtype".to_owned(), js(*r.pick(&["m.text", "m.notice", "M.NOTICE"])));
+    }
+    if ty == "m.room.member" {
+        content.insert("membership".to_owned(), js(*r.pick(&["invite", "join", "Invite"])));
+    }
+    match r.below(8) {
+        0 => {
+            content.insert("m.mentions".to_owned(), obj(vec![]));
+        }
+        1 => {
+            content.insert("m.mentions".to_owned(), obj(vec![("user_ids", J::Arr(vec![js(*r.pick(USERS))]))]));
+        }
+        2 => {
+            content.insert("m.mentions".to_owned(), obj(vec![("room", J::Bool(r.chance(2, 3)))]));
+        }
+        3 if r.chance(1, 3) => {
+            content.insert("m.mentions".to_owned(), gen_value(r, 1));
+        }
+        _ => {}
+    }
+    if r.chance(1, 10) {
+        content.insert("m.relates_to".to_owned(), obj(vec![("rel_type", js("m.replace"))]));
+    }
+    let mut ev = BTreeMap::new();
+    ev.insert("type".to_owned(), js(ty));
+    ev.insert("content".to_owned(), J::Obj(content));
+    match r.below(12) {
+        0 => {}
+        1 => {
+            ev.insert("sender".to_owned(), gen_value(r, 0));
+        }
+        2 => {
+            ev.insert("sender".to_owned(), js(*r.pick(&["me", "@me", "@:x.y", "@a b:x.y", "@me:"])));
+        }
+        _ => {
+            ev.insert("sender".to_owned(), js(*r.pick(USERS)));
+        }
+    }
+    if r.chance(1, 2) {
+        ev.insert("room_id".to_owned(), js(*r.pick(ROOMS)));
+    }
+    if r.chance(1, 3) {
+        ev.insert("state_key".to_owned(), js(*r.pick(&["", "@me:x.y", "@other:x.y"])));
+    }
+    if r.chance(1, 6) {
+        ev.insert((*r.pick(KEYS)).to_owned(), gen_value(r, 2));
+    }
+    J::Obj(ev)
+}
+
+fn gen_scalar(r: &mut Rng) -> Sc {
+    match r.below(5) {
+        0 => Sc::Null,
+        1 => Sc::Bool(r.chance(1, 2)),
+        2 => Sc::Int(*r.pick(&[0i64, 1, -1, 50, 9007199254740991, -9007199254740991, 13])),
+        _ => Sc::Str((*r.pick(STRS)).to_owned()),
+    }
+}
+
+const COND_KEYS: &[&str] = &[
+    "content.body", "content.body", "content.msgtype", "type", "sender", "room_id", "state_key", "content.membership",
+    "content.m\\.mentions.user_ids", "content.m\\.mentions.room", "content.m\\.relates_to.rel_type", "content", "", "a", "a\\.b", "a.b",
+    "a\\", "content.m.mentions",
+];
+const PATTERNS: &[&str] = &[
+    "me", "m?", "M*", "*", "", "hello*", "@room", "m.text", "m.notice", "m.room.*", "@me:x.y", "@*:x.y", "!r:x.y", "!?:x.y", "invite",
+    "my name", "my*name", "?", "??", "*me*", "h?llo m?", "name", "\u{e9}*", "a\nme",
+];
+
+fn gen_cond(r: &mut Rng) -> Cd {
+    match r.below(12) {
+        0..=4 => Cd::Match((*r.pick(COND_KEYS)).to_owned(), (*r.pick(PATTERNS)).to_owned()),
+        5 => Cd::Dn,
+        6 | 7 => Cd::Count(r.below(5) as u8, *r.pick(&[0u64, 1, 2, 3, 10, 9007199254740991])),
+        8 => Cd::Perm((*r.pick(&["room", "room", "Room", "", "rooms"])).to_owned()),
+        9 => Cd::Is((*r.pick(COND_KEYS)).to_owned(), gen_scalar(r)),
+        10 => Cd::Contains((*r.pick(COND_KEYS)).to_owned(), gen_scalar(r)),
+        _ => Cd::Custom,
+    }
+}
+
+#[allow(deprecated)]
+fn gen_ruleset(r: &mut Rng) -> RS {
+    const CIDS: &[&str] = &[
+        "a", "b", "c", ".m.rule.master", ".m.rule.roomnotif", ".m.rule.contains_display_name", ".m.rule.contains_user_name", "x.y",
+    ];
+    let mut rs = if r.chance(1, 3) {
+        let mut d = RS::of_real(&Ruleset::server_default(<&UserId>::try_from("@me:x.y").unwrap()));
+        for rule in d.o.iter_mut().chain(d.u.iter_mut()) {
+            if r.chance(1, 6) {
+                rule.en = !rule.en;
+            }
+        }
+        if r.chance(1, 4) {
+            d.c[0].en = !d.c[0].en;
+        }
+        d
+    } else {
+        RS::default()
+    };
+    let dense = r.chance(1, 2);
+    let count = |r: &mut Rng| if dense { r.below(4) } else { r.below(2) };
+    let crule = |r: &mut Rng, underride: bool| {
+        let mut id = (*r.pick(CIDS)).to_owned();
+        // the deprecated override ids are outside the theorem's domain for underride rules; keep
+        // them rare there
+        if underride && id.starts_with(".m.rule.") && !r.chance(1, 20) {
+            id = "u".to_owned();
+        }
+        CR {
+            id,
+            en: r.chance(4, 5),
+            conds: (0..*r.pick(&[0usize, 1, 1, 1, 2, 3])).map(|_| gen_cond(r)).collect(),
+            act: r.below(4),
+        }
+    };
+    for _ in 0..count(r) {
+        let rule = crule(r, false);
+        if !rs.o.iter().any(|x| x.id == rule.id) {
+            let at = r.below(rs.o.len() + 1);
+            rs.o.insert(at, rule);
+        }
+    }
+    for _ in 0..count(r) {
+        let rule = PR {
+            id: (*r.pick(CIDS)).to_owned(),
+            en: r.chance(4, 5),
+            pat: (*r.pick(PATTERNS)).to_owned(),
+            act: r.below(4),
+        };
+        if !rs.c.iter().any(|x| x.id == rule.id) {
+            let at = r.below(rs.c.len() + 1);
+            rs.c.insert(at, rule);
+        }
+    }
+    for _ in 0..count(r) {
+        let rule = SR { id: (*r.pick(&["!r:x.y", "!R:x.y", "!other:x.y", "!*", "!?:x.y"])).to_owned(), en: r.chance(4, 5), act: r.below(4) };
+        if !rs.r.iter().any(|x| x.id == rule.id) {
+            rs.r.push(rule);
+        }
+    }
+    for _ in 0..count(r) {
+        let rule = SR { id: (*r.pick(&["@other:x.y", "@OTHER:x.y", "@me:x.y", "@bot:z.w", "@*:x.y"])).to_owned(), en: r.chance(4, 5), act: r.below(4) };
+        if !rs.s.iter().any(|x| x.id == rule.id) {
+            rs.s.push(rule);
+        }
+    }
+    for _ in 0..count(r) {
+        let rule = crule(r, true);
+        if !rs.u.iter().any(|x| x.id == rule.id) {
+            let at = r.below(rs.u.len() + 1);
+            rs.u.insert(at, rule);
+        }
+    }
+    rs
+}
+
+fn rules_stream(tier: &str, r: &mut Rng, em: &mut Emitter) {
+    let n = if tier == "thorough" { 60_000 } else { 4_000 };
+    // kind priority, systematically: one always-matching rule per kind, every subset enabled
+    let cx = Cx { room: "!r:x.y".into(), members: 2, user: "@me:x.y".into(), dn: "me".into(), pl: None };
+    let ev = obj(vec![
+        ("type", js("m.room.message")),
+        ("sender", js("@other:x.y")),
+        ("content", obj(vec![("body", js("hello me"))])),
+    ]);
+    let own = obj(vec![("type", js("m.room.message")), ("sender", js("@me:x.y")), ("content", obj(vec![("body", js("hello me"))]))]);
+    for mask in 0..32u32 {
+        let rs = RS {
+            o: vec![CR { id: "o".into(), en: mask & 1 != 0, conds: vec![], act: 1 }],
+            c: vec![PR { id: "c".into(), en: mask & 2 != 0, pat: "me".into(), act: 2 }],
+            r: vec![SR { id: "!r:x.y".into(), en: mask & 4 != 0, act: 3 }],
+            s: vec![SR { id: "@other:x.y".into(), en: mask & 8 != 0, act: 4 }],
+            u: vec![CR { id: "u".into(), en: mask & 16 != 0, conds: vec![Cd::Count(0, 2)], act: 5 }],
+        };
+        emit_rules(em, "systematic-kinds", &rs, &ev, &cx);
+        emit_rules(em, "systematic-kinds", &rs, &own, &cx);
+    }
+    for _ in 0..n {
+        let rs = gen_ruleset(r);
+        let cx = gen_ctx(r);
+        let ev = gen_event(r);
+        emit_rules(em, "random-rules", &rs, &ev, &cx);
+    }
+    for _ in 0..n {
+        let cd = gen_cond(r);
+        let cx = gen_ctx(r);
+        let ev = gen_event(r);
+        emit_cond(em, "random-cond", &cd, &ev, &cx);
+    }
+}
+
+fn malformed_stream(tier: &str, r: &mut Rng, em: &mut Emitter) {
+    // events holding a number serde_json cannot represent
+    let n = if tier == "thorough" { 3_000 } else { 300 };
+    for i in 0..n {
+        let mut ev = gen_event(r);
+        if let J::Obj(o) = &mut ev {
+            let bad = J::Num((*r.pick(BAD_NUMS)).to_owned());
+            match i % 3 {
+                0 => {
+                    o.insert("n".to_owned(), bad);
+                }
+                1 => {
+                    o.insert("n".to_owned(), J::Arr(vec![J::Null, bad]));
+                }
+                _ => {
+                    o.insert("unsigned".to_owned(), obj(vec![("age", bad)]));
+                }
+            }
+        }
+        let rs = gen_ruleset(r);
+        let cx = gen_ctx(r);
+        emit_rules(em, "malformed-number", &rs, &ev, &cx);
+        if i % 10 == 0 {
+            let paths = probe_paths(r, &ev);
+            emit_flatten(em, "malformed-number", &ev, &paths);
+        }
+    }
+    // a pattern whose regex exceeds the regex crate's size limit
+    let huge = "?".repeat(HUGE_QM + 10_000);
+    emit_match(em, "malformed-huge-pattern", true, &huge, "x");
+    let rs = RS { c: vec![PR { id: "big".into(), en: true, pat: huge.clone(), act: 1 }], ..RS::default() };
+    let cx = Cx { room: "!r:x.y".into(), members: 2, user: "@me:x.y".into(), dn: "me".into(), pl: None };
+    let ev = obj(vec![("sender", js("@other:x.y")), ("content", obj(vec![("body", js("x"))]))]);
+    emit_rules(em, "malformed-huge-pattern", &rs, &ev, &cx);
+    // non-object events
+    for ev in [js("str"), J::Null, J::Arr(vec![js("a")]), J::Num("1".into())] {
+        emit_flatten(em, "malformed-root", &ev, &[String::new(), "a".to_owned()]);
+    }
+}
+
+pub fn run(tier: &str, seed: u64, em: &mut Emitter) {
+    let mut r = Rng::new(seed ^ 0xC12);
+    systematic_matches(tier, em);
+    random_matches(tier, &mut r, em);
+    flatten_stream(tier, &mut r, em);
+    rules_stream(tier, &mut r, em);
+    malformed_stream(tier, &mut r, em);
+}
